@@ -39,6 +39,11 @@ type c10Case struct {
 	Uid int `json:"uid,omitempty"`
 	// Uname26: the process reports a 2.6 kernel release (UNAME26 personality)
 	Uname26 bool `json:"uname26,omitempty"`
+	// EinvalLog: in the whole process seccomp(SET_MODE_FILTER) with the log flag is answered EINVAL (old kernel,
+	// sandbox). A load that carries the flag cannot succeed then - in particular not with another flag word.
+	EinvalLog bool `json:"einval_log,omitempty"`
+	// GOARCH: build of the child ("" = amd64, 386)
+	GOARCH string `json:"goarch,omitempty"`
 	// EnosysFault: seccomp(2) fails with ENOSYS in the whole process (outer sandbox / old kernel).
 	EnosysFault bool `json:"enosys_fault"`
 }
@@ -66,6 +71,12 @@ func drawC10(t *rapid.T) c10Case {
 		c.Uid, c.Strace = 65534, false
 	}
 	c.Uname26 = rapid.IntRange(0, 4).Draw(t, "uname26") == 0
+	if !c.Divergent && !c.EnosysFault && rapid.IntRange(0, 5).Draw(t, "einvalLog") == 0 {
+		c.EinvalLog, c.Strace = true, false
+	}
+	if rapid.IntRange(0, 3).Draw(t, "abi") == 0 {
+		c.GOARCH, c.Strace = "386", false
+	}
 	var n int
 	switch k := rapid.IntRange(0, 9).Draw(t, "nClass"); {
 	case k < 4:
@@ -104,8 +115,10 @@ func drawC10(t *rapid.T) c10Case {
 	return c
 }
 
-func c10Policy() spec.Policy {
-	return spec.Policy{Arch: "x86_64", Default: actAllow, Groups: []spec.Group{{Action: actErrno, Names: []string{"getppid"}}}}
+func c10Policy() spec.Policy { return c10PolicyFor("x86_64") }
+
+func c10PolicyFor(archName string) spec.Policy {
+	return spec.Policy{Arch: archName, Default: actAllow, Groups: []spec.Group{{Action: actErrno, Names: []string{"getppid"}}}}
 }
 
 var c10Stats struct{ runs, loadFailed int }
@@ -118,7 +131,11 @@ func checkC10(raw json.RawMessage) (ev.Result, error) {
 	if hostArchName() != "x86_64" {
 		return ev.Result{}, ev.Inconclusivef("kernel checks are set up for an x86_64 host")
 	}
-	nr, _ := model.Number("x86_64", "getppid")
+	archName := "x86_64"
+	if c.GOARCH == "386" {
+		archName = "i386"
+	}
+	nr, _ := model.Number(archName, "getppid")
 	probes := []kjob.Probe{{Nr: nr, Args: [6]uint64{1, 2, 3, 4, 5, 6}}}
 	var sts []kjob.StateThread
 	for _, s := range c.States {
@@ -128,7 +145,7 @@ func checkC10(raw json.RawMessage) (ev.Result, error) {
 	fault := kjob.Step{Op: "sleep", N: 0}
 	switch {
 	case c.Divergent:
-		dp := c10Policy()
+		dp := c10PolicyFor(archName)
 		th := 1
 		pflag := uint32(0)
 		switch c.PriorKind {
@@ -144,8 +161,10 @@ func checkC10(raw json.RawMessage) (ev.Result, error) {
 		fault = kjob.Step{Op: "load", Thread: th, Filter: &kjob.FilterSpec{Policy: dp, NNP: true, Flag: pflag, HostArch: true}}
 	case c.EnosysFault:
 		fault = kjob.Step{Op: "outer-enosys"}
+	case c.EinvalLog:
+		fault = kjob.Step{Op: "outer-einval-log"}
 	}
-	pol := c10Policy()
+	pol := c10PolicyFor(archName)
 	if c.LogGroup {
 		pol.Groups = append(pol.Groups, spec.Group{Action: actLog, Names: []string{"getgid"}})
 	}
@@ -161,10 +180,10 @@ func checkC10(raw json.RawMessage) (ev.Result, error) {
 		{Op: "probe", Thread: 0, Probes: probes},
 		{Op: "sleep", N: c.DelayUs},
 	}}
-	if c.DelayUs > 0 && !c.Divergent && !c.EnosysFault {
+	if c.DelayUs > 0 && !c.Divergent && !c.EnosysFault && !c.EinvalLog {
 		job.Steps[2] = kjob.Step{Op: "sleep", N: c.DelayUs}
 	}
-	rr, err := kchild.Run(job, kchild.RunOpts{Strace: c.Strace, Timeout: 45e9, Uid: c.Uid})
+	rr, err := kchild.Run(job, kchild.RunOpts{Strace: c.Strace, Timeout: 45e9, Uid: c.Uid, GOARCH: c.GOARCH})
 	if err != nil {
 		return ev.Result{}, ev.Inconclusivef("%v", err)
 	}
@@ -181,6 +200,13 @@ func checkC10(raw json.RawMessage) (ev.Result, error) {
 	res := ev.Result{Classes: []string{fmt.Sprintf("flag:%d", c.Flag), fmt.Sprintf("gomaxprocs:%d", c.GOMAXPROCS), fmt.Sprintf("uid:%d", c.Uid)}}
 	if c.Uid != 0 && !c.NNP {
 		res.Classes = append(res.Classes, "unprivileged-without-no-new-privs")
+	}
+	res.Classes = append(res.Classes, "abi:"+map[string]string{"": "amd64", "386": "386"}[c.GOARCH])
+	if c.EinvalLog {
+		if oe := rr.Find(2, "outer-einval-log"); len(oe) != 1 || oe[0].Err != "" {
+			return res, ev.Inconclusivef("could not inject the EINVAL-for-log fault")
+		}
+		res.Classes = append(res.Classes, "fault:log-flag-answered-EINVAL", fmt.Sprintf("einval-log/flag:%d", c.Flag))
 	}
 	if c.Uname26 {
 		res.Classes = append(res.Classes, "process-reports-a-2.6-kernel-release", fmt.Sprintf("uname26/flag:%d", c.Flag))
@@ -219,7 +245,7 @@ func checkC10(raw json.RawMessage) (ev.Result, error) {
 		if priorSynced {
 			want = 2
 		}
-		return c.EnosysFault || seccomp == want
+		return c.EnosysFault || c.EinvalLog || seccomp == want
 	}
 	// flag word reaches the kernel unmodified
 	nFilter := 0
@@ -292,7 +318,7 @@ func checkC10(raw json.RawMessage) (ev.Result, error) {
 			}
 			// untouched includes the no_new_privs bit (the earlier thread-sync load and the injected fault hand the bit
 			// to every thread themselves: nothing to tell then)
-			if st.NNP != 0 && !priorSynced && !c.EnosysFault {
+			if st.NNP != 0 && !priorSynced && !c.EnosysFault && !c.EinvalLog {
 				return res, fmt.Errorf("thread-sync NOT requested (flags %#x, no_new_privs requested: %v), but pre-existing thread %d (state %q) now has no_new_privs=%d", c.Flag, c.NNP, r.Idx, r.State, st.NNP)
 			}
 			if c.NNP {
